@@ -347,7 +347,8 @@ SPECS["C14"] = {
 # ---------------------------------------------------------------------------------------------- C12
 def plan_c12(tier, seed):
     if tier == "quick":
-        return checks("main", 8, 5000) + shards("hunt", "marker-hunt-10", 8)
+        # (the build without the exact-fit growth hook keeps the spare room ordinary growth leaves: paths that depend on Capacity() > Size())
+        return checks("main", 7, 5000) + checks("nohook_avx2", 2, 4000) + shards("hunt", "marker-hunt-10", 8)
     return checks("main", 13, 80000) + checks("nohook_avx2", 3, 60000) + shards("hunt", "marker-hunt-500", 16, timeout=7000)
 
 
